@@ -78,8 +78,6 @@ Definition item_type := kw_item "type".
 Definition item_proc := kw_item "proc".
 Definition item_var := kw_item "var".
 Definition item_ref := kw_item "ref".
-Definition item_int : item :=
-  {| it_label := str "int"; it_kind := kind_struct; it_detail := None; it_doc := None; it_insert := None |}.
 
 Definition snip_main := snippet "main" (str "proc main() {" ++ nl4 ++ str "$0" ++ [10%N] ++ str "}")%list.
 Definition snip_array := snippet "array" (str "array [$1] of $0").
@@ -141,9 +139,8 @@ Definition complete_type (position : N) (toks : list token) (g : gtable) : optio
   | None => None
   | Some last =>
       match tk last with
-      | EqT => Some [snip_array; item_array; item_int]
       | RBracket => Some [item_of]
-      | KOf => Some ([snip_array; item_array] ++ search_types g)
+      | EqT | KOf => Some ([snip_array; item_array] ++ search_types g)
       | _ => None
       end
   end.
@@ -255,7 +252,7 @@ Definition complete_procedure (pd : procdecl) (position : N) (toks : list token)
       if in_signature then
         ROk (match tk last with
              | LParen | Comma => Some [item_ref]
-             | Colon => Some (search_types g)
+             | Colon | KOf => Some (search_types g)
              | _ => None
              end)
       else
@@ -271,7 +268,7 @@ Definition complete_procedure (pd : procdecl) (position : N) (toks : list token)
         if in_statements then complete_statements (pd_stmts pd) position toks last false l g
         else
           ROk (match tk last with
-               | Colon => Some (search_types g)
+               | Colon | KOf => Some (search_types g)
                | Semic | LCurly => Some ([snip_var; item_var] ++ new_stmt l g)
                | _ => None
                end)
